@@ -152,6 +152,17 @@ func damageBase(en *Env, b int) int {
 		add("merge", mdir)
 	}
 	en.T.Emit(h.Ev{"ev": "dbase", "files": files})
+	// the newest data file and where its final record starts (mechanics: classification of the damaged byte)
+	lastData := ""
+	lastRecStart := map[string]int{}
+	if ids := h.DataFileIDs(dir); len(ids) > 0 {
+		id := ids[len(ids)-1]
+		lastData = filepath.Base(datafile.GetFileName(dir, uint32(id), datafile.DataFileSuffix))
+		if rs, _ := e.ScanFile(dir, id, -1); len(rs) > 0 {
+			lr := rs[len(rs)-1]
+			lastRecStart[lastData] = lr.B*h.BlockSize + lr.O
+		}
+	}
 	trials := 0
 	work := en.FreshDir()
 	defer en.Drop(work)
@@ -257,7 +268,8 @@ func damageBase(en *Env, b int) int {
 				buf = buf[:d.cut]
 			}
 			os.WriteFile(filepath.Join(tdir, tg.name), buf, 0644)
-			ev := h.Ev{"ev": "damage", "kind": d.kind, "file": tg.dir + "/" + tg.name, "off": d.off, "bit": d.bit, "cut": d.cut}
+			ev := h.Ev{"ev": "damage", "kind": d.kind, "file": tg.dir + "/" + tg.name, "off": d.off, "bit": d.bit, "cut": d.cut,
+				"tail": tg.dir == "data" && tg.name == lastData && d.off >= lastRecStart[tg.name]}
 			// the sequential reader over the damaged file itself
 			sc, scerr := scanAny(e, tdir, tg.name)
 			ev["scan"], ev["scanerr"] = sc, scerr
